@@ -296,6 +296,8 @@ MultiLine(ev, args, tbl, aux) ==
   /\ Chk("C16", "filter.run", \A b \in ChSet(ev) : b \in addrs \/ b \in k0, ev, "filter")
   /\ Chk("C16", "filtered.untouched", (na = 0 /\ ev.ok) => ev.ch = <<>>, ev, "nothing.applied")
   /\ Chk("C13", "rejected.untouched", (na = 0 /\ ev.ok) => ev.ch = <<>>, ev, "nothing.applied")
+  /\ Chk("C04", "refused.run", (na = 0 /\ ev.ok) => ev.ch = <<>>, ev, "nothing.applied")
+  /\ Mark("C04", na = 0 /\ k0 # {}, ev)
   /\ Mark("C16", na = 0 /\ args.f # <<>> /\ k0 # {}, ev)
 
 (***************************** paired runs *********************************)
@@ -328,6 +330,9 @@ PairChecks(ev, t1) ==
        /\ Chk("C11", "segmentation", kind = "seg" => TablesEqual(st.tbl[0], t1, NoStamps), ev, "seg")
        /\ Chk("C03", "segmentation", kind = "seg3" => TablesEqual(st.tbl[0], t1, NoStamps), ev, "seg")
        \* C02: what a line does depends on its digits only - not on the line before it (repeated frames, decorated copies)
+       \* the same under any other property (tag.prop): value sequences of its carrying formats that return to an earlier value
+       /\ (IF kind = "segp" THEN Chk(ev.tag.prop, "segmentation", TablesEqual(st.tbl[0], t1, NoStamps), ev, "seg") /\ Mark(ev.tag.prop, TRUE, ev)
+           ELSE TRUE)
        /\ Chk("C02", "segmentation", kind = "seg2" => TablesEqual(st.tbl[0], t1, NoStamps), ev, "seg")
        /\ Mark("C02", kind = "seg2", ev)
        /\ Mark("C03", kind = "seg3", ev)
@@ -567,6 +572,7 @@ PrintStep(ev) ==
        /\ Chk("C14", "row.known", r # <<>>, [i |-> ev.i], "unknown.row")
        /\ Chk("C14", "row.cells", (r # <<>> /\ Fits(cols, ev.header, r[1])) => RowOK(ev.lines[j], cols, ev.header, r[1]), [i |-> ev.i], "cells")
        /\ Chk("C14", "marker.without.value", (r # <<>> /\ Fits(cols, ev.header, r[1])) => MarkersOK(ev.lines[j], cols, ev.header), [i |-> ev.i], "marker")
+       /\ Chk("C14", "threat.marker", (r # <<>> /\ Fits(cols, ev.header, r[1])) => ThreatOK(ev.lines[j], cols, ev.header, r[1]), [i |-> ev.i], "threat")
        /\ Chk("C14", "row.width", (r # <<>> /\ Fits(cols, ev.header, r[1])) => Len(ev.lines[j]) = Len(ev.header), [i |-> ev.i], "width")
   /\ Chk("C14", "one.line.each", Len(ev.lines) = Len(ev.rows), ev, "count")
   /\ Mark("C14", Len(ev.rows) > 0, ev)
